@@ -417,6 +417,27 @@ def run_check(pid, tier, seed, replay=None):
             broken.append(f'witness {w["key"]} of a refuted statement no longer fails on the implementation '
                           f'(the model still contains the defect)')
 
+    # 4b. development self-test (not a registered command): the direct oracle must be silent on every generated case of
+    #     a tree on which nothing broke; whatever it says there is either a defect of the repository or of the oracle
+    if os.environ.get('VERIF_ORACLE_SELFTEST') and not broken and not violations:
+        extra = list(plugin.search_cases(rng, tier)) if hasattr(plugin, 'search_cases') else []
+        said = {}
+        for c in list(cases) + extra:
+            try:
+                msg = with_timeout(plugin.oracle, getattr(plugin, 'CASE_TIMEOUT', 60), c)
+            except Exception as e:
+                msg = f'oracle raised {type(e).__name__}: {e}'
+            if msg:
+                key = plugin.finding_key(c, msg) if hasattr(plugin, 'finding_key') else case_hash(c)[:16]
+                if (pid, key) not in known and key not in said:
+                    said[key] = msg
+                    os.makedirs(os.path.join(VERIF, '.cache', 'selftest'), exist_ok=True)
+                    with open(os.path.join(VERIF, '.cache', 'selftest', f'{pid}_{len(said)}.json'), 'w') as f:
+                        json.dump({'case': c, 'message': msg, 'key': key}, f, indent=1, default=str)
+        print(f'ORACLE-SELFTEST {pid}: {len(cases) + len(extra)} cases, {len(said)} distinct complaints')
+        for k, m in said.items():
+            print(f'ORACLE-SELFTEST {pid} [{k}]: {m[:300]}')
+
     # 5. search for a failing input when something broke
     searched = 0
     if broken and not violations:
